@@ -165,16 +165,37 @@ def rule_register(ctx: Ctx, fname: str, gpt: bool) -> None:
         ctx.check(len(d) == 1 and norm(d[0]) == f'{md}.__class__.__name__.lower()', rid, f, 'dispatch on the lower-cased class name only', 'module_name',
                   f'module_name is {[norm(x) for x in d]}', st)
         # parallelism tag consistent between helper and layer and class
+        def kind_of(node: ast.AST) -> str | None:
+            gs = [(re.sub(r'\s+', ' ', norm(a)), pol) for g in flow.enclosing_guards(p, f, node) for a, pol in conjuncts(g.test, g.polarity)]
+            return 'output' if ("module_name == 'ColumnParallelLinear'.lower()", True) in gs else ('input' if ("module_name == 'RowParallelLinear'.lower()", True) in gs else None)
+
         for c in [n for n in p.nodes(f) if isinstance(n, ast.Call) and norm(n.func) == 'GPTNeoXKFACEigenLayer']:
-            gs = [(re.sub(r'\s+', ' ', norm(a)), pol) for g in flow.enclosing_guards(p, f, c) for a, pol in conjuncts(g.test, g.polarity)]
-            kind = 'output' if ("module_name == 'ColumnParallelLinear'.lower()", True) in gs else ('input' if ("module_name == 'RowParallelLinear'.lower()", True) in gs else None)
-            par = {k.arg: norm(k.value) for k in c.keywords}
+            par = {k.arg: k.value for k in c.keywords}
             hp = {}
             if c.args and isinstance(c.args[0], ast.Call):
-                hp = {k.arg: norm(k.value) for k in c.args[0].keywords}
-            ok = kind is not None and par.get('parallelism') == repr(kind) and hp.get('parallelism') == repr(kind) and par.get('model_parallel_group') == 'model_parallel_group'
-            ctx.check(ok, rid, f, f'{kind}: layer and helper tagged {kind!r}', norm(c)[:80],
-                      f'{norm(c)[:100]}: ColumnParallelLinear must be registered as output-parallel and RowParallelLinear as input-parallel, consistently in layer and helper (got layer {par.get("parallelism")}, helper {hp.get("parallelism")})', c)
+                hp = {k.arg: k.value for k in c.args[0].keywords}
+            lv, hv = par.get('parallelism'), hp.get('parallelism')
+            # the tag is either written at the constructor (the constructor is under the class test) or a local
+            # assigned a constant under the class test: one case per reaching definition
+            cases: list[tuple[str | None, str | None, str | None, ast.AST]] = []
+            names = {v.id for v in (lv, hv) if isinstance(v, ast.Name)}
+            if not names:
+                cases.append((kind_of(c), norm(lv) if lv is not None else None, norm(hv) if hv is not None else None, c))
+            elif len(names) == 1:
+                (v,) = names
+                defs = [n for n in p.nodes(f) if isinstance(n, ast.Assign) and any(isinstance(t, ast.Name) and t.id == v for t in n.targets)]
+                for d_ in defs:
+                    val = norm(d_.value) if isinstance(d_.value, ast.Constant) else None
+                    cases.append((kind_of(d_), val if isinstance(lv, ast.Name) else (norm(lv) if lv is not None else None),
+                                  val if isinstance(hv, ast.Name) else (norm(hv) if hv is not None else None), d_))
+                if not defs:
+                    cases.append((None, None, None, c))
+            else:
+                cases.append((None, norm(lv), norm(hv), c))
+            for kind, lt, ht, at in cases:
+                ok = kind is not None and lt == repr(kind) and ht == repr(kind) and norm(par.get('model_parallel_group')) == 'model_parallel_group' if par.get('model_parallel_group') is not None else False
+                ctx.check(ok, rid, f, f'{kind}: layer and helper tagged {kind!r}', norm(at)[:80],
+                          f'{norm(c)[:100]}: ColumnParallelLinear must be registered as output-parallel and RowParallelLinear as input-parallel, consistently in layer and helper (class test {kind}: layer {lt}, helper {ht})', at)
 
 
 def rule_hookreg(ctx: Ctx) -> None:
